@@ -16,7 +16,7 @@ From Coq Require Import ZArith List Bool.
 From Synnax Require Import Cesium.Store Cesium.IndexSearch Cesium.Distance Cesium.Stamp
   Cesium.DeleteModel Cesium.GCModel Cesium.DeleteBase Cesium.DeleteSearch Cesium.DeleteDistance
   Cesium.DeleteOffsets Cesium.DeleteContent Cesium.DeleteExact Cesium.ReadExact Cesium.DeleteDB
-  Cesium.GCProofs Cesium.DeleteCheck Cesium.DeleteRefuted Cesium.DeleteInv.
+  Cesium.GCProofs Cesium.DeleteCheck Cesium.DeleteRefuted Cesium.DeleteInv Cesium.DeleteIndex.
 Import ListNotations.
 Local Open Scope Z_scope.
 
@@ -100,31 +100,42 @@ Theorem C04_read_is_content : forall d k rs re l,
 Proof. exact read_res_content. Qed.
 Print Assumptions C04_read_is_content.
 
-(* (4) The database.  DeleteTimeRange naming data channels: if it succeeds the invariant is
+(* (4) The database.  DeleteTimeRange naming ANY set of channels (data channels are deleted
+   first, then index channels, each behind its guard): if it succeeds the database invariant is
    kept, every named channel loses exactly the samples stamped in [a,b), and every other
-   channel (its index included) is left as it was ... *)
+   channel keeps its content.  For an index channel this includes that the remaining stamps are
+   a well-formed index again and that every channel it indexes stays aligned with it. *)
 Theorem C04_delete_exact : forall d chs a b d',
-  db_ok d -> (forall k, In k chs -> is_data d k) ->
-  delete_time_range true d chs (TR a b) = (d', None) ->
+  db_ok d -> delete_time_range true d chs (TR a b) = (d', None) ->
   db_ok d' /\
   (forall k, content_of d' k = if existsb (Z.eqb k) chs then filter (outside_ab a b) (content_of d k)
-                               else content_of d k) /\
-  (forall k, stamps_of_db d' k = stamps_of_db d k) /\
-  (forall k, ~ In k chs -> alookup k d' = alookup k d).
-Proof. exact delete_data_channels_exact. Qed.
+                               else content_of d k).
+Proof. exact delete_exact_general. Qed.
 Print Assumptions C04_delete_exact.
 
-(* ... stated on reads of arbitrary ranges: *)
+(* ... stated on reads of arbitrary ranges: whenever the reads before and after succeed, the
+   (stamp, sample) pairs read after the deletion are those read before minus the pairs stamped
+   in [a,b) for a named channel, and the same pairs for any other channel. *)
 Theorem C04_reads_after_delete : forall d chs a b d' k rs re l l',
-  db_ok d -> (forall k, In k chs -> is_data d k) ->
-  delete_time_range true d chs (TR a b) = (d', None) ->
+  db_ok d -> delete_time_range true d chs (TR a b) = (d', None) ->
   0 <= rs < re -> re <= MAXTS ->
   read_res d k (TR rs re) = Ok l -> read_res d' k (TR rs re) = Ok l' ->
   read_content (stamps_of_db d' k) l' =
   if existsb (Z.eqb k) chs then filter (outside_ab a b) (read_content (stamps_of_db d k) l)
   else read_content (stamps_of_db d k) l.
-Proof. exact reads_after_delete. Qed.
+Proof. exact reads_after_delete_general. Qed.
 Print Assumptions C04_reads_after_delete.
+
+(* Deleting from an index channel, seen from the channel: the stamps that remain are the old
+   ones outside [a,b), they form a well-formed index, and the channel is aligned with itself. *)
+Theorem C04_index_channel_delete : forall c c' a b,
+  widx (doms c) -> chan_ok (allst (doms c)) c -> a <= b ->
+  dom_delete true (doms c) c (TR a b) = Ok c' ->
+  widx (doms c') /\ chan_ok (allst (doms c')) c' /\
+  content (allst (doms c')) c' = filter (outside_ab a b) (content (allst (doms c)) c) /\
+  allst (doms c') = filter (keep_ab a b) (allst (doms c)).
+Proof. exact idx_delete_self. Qed.
+Print Assumptions C04_index_channel_delete.
 
 (* (5) Channels that are not named are never modified — whatever the bounds, whether the
    call succeeds, fails half-way (earlier channels stay deleted) or is refused. *)
@@ -204,10 +215,20 @@ Qed.
 Print Assumptions C04_gc_keeps_invariant.
 
 Theorem C04_step_keeps_invariant : forall g d o d',
-  db_ok d -> NoDup (map fst d) -> in_scope d o -> step true g d o = (d', None) ->
+  db_ok d -> NoDup (map fst d) -> in_scope o -> step true g d o = (d', None) ->
   db_ok d' /\ NoDup (map fst d').
 Proof. exact step_keeps_invariant. Qed.
 Print Assumptions C04_step_keeps_invariant.
+
+(* ... and the induction: along any history of successful deletes (arbitrary channels and
+   bounds), GC passes (any threshold) and reopens, started in a state satisfying the invariant,
+   the invariant holds at the end — hence at every point, so (3), (4) and the GC theorems
+   apply to every delete, GC and read of the history. *)
+Theorem C04_history_keeps_invariant : forall g ops d,
+  db_ok d -> NoDup (map fst d) -> run_ok g d ops ->
+  db_ok (run true g d ops) /\ NoDup (map fst (run true g d ops)).
+Proof. exact history_keeps_invariant. Qed.
+Print Assumptions C04_history_keeps_invariant.
 
 (* ================================================================== reopen *)
 Theorem C04_reopen_invisible : forall d,
@@ -281,7 +302,7 @@ Definition ex_g0 : gcfg := GCfg 1 0.
 Definition ex_d'' : db := gc_db ex_g0 (reopen_db ex_d').
 
 Example C04_nonvacuous :
-  db_okb ex_d = true /\ (forall k, In k [2] -> is_data ex_d k) /\
+  db_okb ex_d = true /\
   fst (after true ex_d [2] 1012 1045) = None /\
   vals_of (read ex_d 2 whole) = [(995, 1031, [11; 12; 13; 14]); (1031, 1051, [15; 16])] /\
   vals_of (read ex_d' 2 whole) = [(995, 1011, [11; 12]); (1050, 1051, [16])] /\
@@ -293,7 +314,5 @@ Example C04_nonvacuous :
   vals_of (read ex_d'' 2 whole) = vals_of (read ex_d' 2 whole) /\
   vals_of (read ex_d'' 2 (TR 1005 1050)) = [(1005, 1011, [12])].
 Proof.
-  split; [vm_compute; reflexivity|]. split.
-  - intros k [<-|[]]. eexists. split; [vm_compute; reflexivity|reflexivity].
-  - vm_compute. repeat split; reflexivity.
+  vm_compute. repeat split; reflexivity.
 Qed.
